@@ -327,6 +327,9 @@ func (g *gen) routeEntryFor(hostport string, extra bool) string {
 	uri := "sip:" + hostport
 	if g.chance(30) {
 		uri = "sip:" + g.user0() + "@" + hostport
+		if g.chance(15) {
+			uri = "sip:" + g.user0() + ":" + g.alnum(1, 6) + "@" + hostport // user-info with a password
+		}
 	}
 	params := ";lr"
 	if extra {
